@@ -175,7 +175,8 @@ pub fn build(abi: &Abi, rng: &mut Rng, opname: &str, bits_on: &[String], want_er
     // and next to the packing boundaries (end of an entry with and without its padding)
     let mut pre_dirents: Option<Vec<OwnedDirent>> = None;
     let mut dirent_sizes: Vec<u64> = Vec::new();
-    if (opname == "READDIR" || opname == "READDIRPLUS") && !want_err {
+    let dirents_then_err = (opname == "READDIR" || opname == "READDIRPLUS") && want_err && rng.chance(1, 2);
+    if (opname == "READDIR" || opname == "READDIRPLUS") && (!want_err || dirents_then_err) {
         let n = rng.range(0, 12) as usize;
         let mut v = Vec::new();
         let mut cum = 0u64;
@@ -277,7 +278,10 @@ pub fn build(abi: &Abi, rng: &mut Rng, opname: &str, bits_on: &[String], want_er
     let hj: Map<String, Value> = h.iter().map(|(k, v)| (k.clone(), json!(v.to_string()))).collect();
     // script
     let kinds: Vec<String> = op["kinds"].as_array().unwrap().iter().map(|x| x.as_str().unwrap().to_string()).collect();
-    let script = if want_err {
+    let script = if dirents_then_err {
+        // the file system fails after it has already added entries: the answer is still its error
+        Ret::DirentsErr(pre_dirents.take().unwrap_or_default(), rng.range(1, 133) as i32)
+    } else if want_err {
         rerr(rng)
     } else {
         let kind = if (opname == "GETXATTR" || opname == "LISTXATTR") && vals.get("size").copied().unwrap_or(0) == 0 {
@@ -858,7 +862,14 @@ pub fn concretise(abi: &Abi, rng: &mut Rng, c: &Value) -> Option<ClassReq> {
             if need <= 17 {
                 return None;
             }
-            rng.range(17, need as u64 - 1) as usize
+            // anywhere between an error reply and the success reply, with the edges favoured: one byte short, the last
+            // 8 / 16 bytes (a reply written in parts: header + first structure fits, the last part does not)
+            if rng.chance(1, 2) {
+                rng.range(17, need as u64 - 1) as usize
+            } else {
+                let c = *rng.pick(&[need - 1, need - 2, need.saturating_sub(8), need.saturating_sub(9), need.saturating_sub(16), need.saturating_sub(17), 17, 24]);
+                c.clamp(17, need - 1)
+            }
         }
         _ => need + rng.below(64) as usize,
     };
